@@ -141,7 +141,20 @@ def _expand(task):
                     break
                 rel, val, prog = rel2, val2, prog + (op,)
             if not ok:
-                raise RuntimeError(f"replay divergence rebuilding frontier program {root} {idxs}")
+                # The harness side of a replay is a pure function of (world, program): fresh engines and
+                # leaves, no randomness.  A program that was accepted when its parent was expanded and is
+                # not accepted now, in another process, means library behaviour depends on process history.
+                v = {
+                    "kind": "history-dependent-behaviour",
+                    "detail": f"program was accepted in one worker process but step {A.fmt_op(op)} is "
+                    f"{'rejected by the library (' + type(exc).__name__ + ')' if rel2 is None else 'rejected by the reference'} "
+                    "when rebuilt in another: the outcome of a factory call depends on earlier, unrelated calls",
+                    "case": {"sub": sub.label, "program": A.to_jsonable((root,) + tuple(sub.ops[j] for j in idxs))},
+                    "program_str": A.fmt_prog((root,) + tuple(sub.ops[j] for j in idxs)),
+                    "finding": None,
+                }
+                violations.append(v)
+                continue
             check.enter_state(ctx, sub, prog, rel, val)
             for oi, op in enumerate(sub.ops):
                 tr = Transition()
